@@ -151,3 +151,161 @@ class ThreadServerLoop(_LoopBase):
         vc = st.get(exc, "__cls__")
         return [("nothing a client does ends the loop with an exception: only the caller's own loop condition can raise",
                  z3.BoolVal(vc.qname is None and "user_call" in str(vc.term)))]
+
+
+# ----------------------------------------------------------------------------------------------------------------------
+# multiplex server: events(eventsockets)
+
+sock_at = z3.Function("event_socket_at", IntS, U)
+SERVER_SOCK = z3.Const("server_socket", U)
+
+
+class SockList(V):
+    """the list of sockets with a pending event handed to events(): arbitrary length, arbitrary members (the listening socket may be among them)"""
+
+    def iter_spec_v(self, E, st):
+        n = z3.Const("n_eventsockets", IntS)
+        return (n, lambda j: VOpaque(sock_at(j)), [n >= 0])
+
+    def fresh_like(self, name):
+        return self
+
+
+@R.model("Pyro5.svr_multiplex.SocketServer_Multiplex")
+class MuxDecl:
+    """callees of events() by their declared interfaces: _handleConnection(sock) -> connection | None | ConnectionClosedError (listening socket gone)
+    [C05/C08 group 1]; handleRequest(conn) -> bool, never raises [C05/C13 group 1]"""
+
+    def getattr(self, E, st, obj, name):
+        return None
+
+    def m_handle_connection(self, E, st, obj, args, kw):
+        s2, s3 = st.fork(), st.fork()
+        c = VOpaque(fresh("accepted_connection", U))
+        st.assume(c.e != U_NONE, truthy(c.e))
+        st.event("mux.accept", args[0], c)
+        s2.event("mux.accept", args[0], NONE)
+        return [Res(st, c), Res(s2, NONE), E.raise_(s3, "Pyro5.errors.ConnectionClosedError")]
+
+    def m_handle_request(self, E, st, obj, args, kw):
+        active = VBool(fresh("connection_still_active", BoolS))
+        st.event("mux.request", args[0], active)
+        return [Res(st, active)]
+
+    methods = {"_handleConnection": m_handle_connection, "handleRequest": m_handle_request}
+
+
+@R.model("mux_selector")
+class MuxSelector:
+    """selector: register / unregister of a file object (the sockets handed to events() are registered ones: unregister does not fail)"""
+
+    def getattr(self, E, st, obj, name):
+        return None
+
+    def m_register(self, E, st, obj, args, kw):
+        st.event("register", args[0])
+        return [Res(st, NONE)]
+
+    def m_unregister(self, E, st, obj, args, kw):
+        st.event("unregister", args[0])
+        return [Res(st, NONE)]
+
+    methods = {"register": m_register, "unregister": m_unregister}
+
+
+@R.method("VOpaque", "close")
+def conn_close(E, st, recv, args, kw):
+    """SocketConnection.close(): never raises (C13: contracts/connection_close.py)"""
+    st.event("conn.close", recv)
+    return [Res(st, NONE)]
+
+
+R.glob("selectors.EVENT_READ", VInt(1), "constant")
+
+
+@R.spec("Pyro5.server.Daemon._clientDisconnect", doc="declared: stream-table update + the user's disconnect hook; may raise any Exception")
+def client_disconnect_decl(E, st, args, kw):
+    out = [may_raise(E, st, "clientDisconnect")]
+    st.event("disconnect", args[1])
+    out[0].st.event("disconnect", args[1])
+    out.insert(0, Res(st, NONE))
+    return out
+
+
+@R.spec("Pyro5.server.Daemon._housekeeping", doc="declared: stream expiry + the user's housekeeping hook; may raise any Exception (the user's own code)")
+def housekeeping_decl(E, st, args, kw):
+    out = [may_raise(E, st, "housekeeping_hook")]
+    st.event("housekeeping")
+    out.insert(0, Res(st, NONE))
+    return out
+
+
+@R.contract
+class MuxEvents(_LoopBase):
+    name = "Pyro5.svr_multiplex.SocketServer_Multiplex.events"
+    props = ("C05", "C13")
+    raises = {"Pyro5.errors.ConnectionClosedError": "x_server_socket_gone", "builtins.Exception": "x_user_hook"}
+    raises_any_subclass = ("builtins.Exception",)
+    trusted = ("the sockets handed to events() are registered with the selector (they come from its select()); _handleConnection / handleRequest by their "
+               "contracts of the first C05/C13 group; SocketConnection.close() never raises (C13)",)
+
+    def setup(self, E, st):
+        srv = st.new_obj("Pyro5.svr_multiplex.SocketServer_Multiplex")
+        st.set(srv, "daemon", new_daemon(E, st))
+        st.set(srv, "sock", VOpaque(SERVER_SOCK))
+        st.assume(SERVER_SOCK != U_NONE)
+        st.set(srv, "selector", st.new_obj("mux_selector"))
+        st.set(srv, "shutting_down", VBool(z3.Const("shutting_down", BoolS)))
+        self.srv = srv
+        return {"self": srv, "eventsockets": SockList()}
+
+    @staticmethod
+    def this_iteration(st):
+        evs = st.events
+        last = max([i for i, e in enumerate(evs) if e[0] == "loop"], default=-1)
+        return evs[last + 1:]
+
+    def loop_modifies(self, k, E, st, a):
+        return []
+
+    def loop_inv(self, k, E, old, st, a):
+        idx = st.ghost["idx%d" % k].e
+        evs = self.this_iteration(st)
+        inv = [("index", z3.And(0 <= idx, idx <= z3.Const("n_eventsockets", IntS)))]
+        reqs = [e for e in evs if e[0] == "mux.request"]
+        accs = [e for e in evs if e[0] == "mux.accept"]
+        disc = [e for e in evs if e[0] == "disconnect"]
+        unreg = [e for e in evs if e[0] == "unregister"]
+        closed = [e for e in evs if e[0] == "conn.close"]
+        regs = [e for e in evs if e[0] == "register"]
+        order = [e[0] for e in evs if e[0] in ("disconnect", "unregister", "conn.close")]
+        if reqs:
+            s = reqs[0][1]
+            act = reqs[0][2].e
+            cleaned = (len(disc) == 1 and len(unreg) == 1 and len(closed) == 1 and order == ["disconnect", "unregister", "conn.close"]
+                       and all(z3.eq(e[1].e, s.e) for e in disc + unreg + closed))
+            untouched = not disc and not unreg and not closed
+            inv.append(("C13: a connection whose request ended it gets the disconnect hook, is unregistered and closed - each exactly once, in that order; "
+                        "an active connection is left alone", z3.If(act, z3.BoolVal(untouched), z3.BoolVal(cleaned))))
+            inv.append(("one request per socket event", z3.BoolVal(len(reqs) == 1 and not accs)))
+        elif accs:
+            c = accs[0][2]
+            inv.append(("C08: a new connection is registered for requests exactly when the accept path handed it back",
+                        z3.BoolVal((len(regs) == 1 and isinstance(c, VOpaque) and z3.eq(regs[0][1].e, c.e)) if isinstance(c, VOpaque) else not regs)))
+            inv.append(("the listening socket is never cleaned up as if it were a client", z3.BoolVal(not disc and not unreg and not closed)))
+        else:
+            inv.append(("nothing happens without a socket event", z3.BoolVal(not disc and not unreg and not closed and not regs)))
+        return inv
+
+    def ensures(self, E, old, st, a, result):
+        return [("ok", z3.BoolVal(True))]
+
+    def x_server_socket_gone(self, E, old, st, a, exc):
+        evs = self.this_iteration(st)
+        return [("ConnectionClosedError escapes only from the accept path (the listening socket itself is gone)",
+                 z3.BoolVal(not [e for e in evs if e[0] in ("mux.request", "disconnect", "unregister", "conn.close")]))]
+
+    def x_user_hook(self, E, old, st, a, exc):
+        vc = st.get(exc, "__cls__")
+        return [("no client-induced exception escapes: besides the case above only the daemon owner's housekeeping hook can raise out of events()",
+                 z3.BoolVal(vc.qname is None and "housekeeping_hook" in str(vc.term)))]
